@@ -23,6 +23,9 @@ impl<T> Gc<T> {
     pub uninterp spec fn id(&self) -> int;
     pub uninterp spec fn obj(&self) -> T;       // content of an immutable cell (classes after their definition)
 }
+// memory.rs `impl PartialEq for Gc`: pointer comparison — two handles are equal iff they are the same handle value
+#[verifier::external_body]
+fn gc_eq<T>(a: Gc<T>, b: Gc<T>) -> (r: bool) ensures r == (a == b) { unimplemented!() }
 impl<T> Deref for Gc<T> {
     type Target = T;
     #[verifier::external_body]
@@ -107,8 +110,11 @@ pub open spec fn tables_ok() -> bool { forall|c: Gc<ObjClass>, k: int| has_metho
 // what a call made by these functions was made on
 pub enum Callee { Closure(Gc<ObjClosure>), Native(Gc<ObjNative>), AnyValue(Value) }
 
-// class_store.rs is_native_class: the built-in classes whose instances are native objects / values, not ObjInstances
-pub uninterp spec fn native_class(c: Gc<ObjClass>) -> bool;
+// The built-in classes whose instances are native objects / values, not ObjInstances (their native methods expect that
+// representation): the NativeValue / NativeObject kinds of the class store (class_store.rs is_native_class, generated)
+// AND the String class, which does not live in the class store but in `Vm.string_class` (vm.rs init_heap_allocated_data)
+pub uninterp spec fn store_native(c: Gc<ObjClass>) -> bool;
+pub open spec fn native_class(vm: &Vm, c: Gc<ObjClass>) -> bool { store_native(c) || c == vm.the_string_class }
 #[verifier::external_body]
 pub struct ClassStore { _p: u8 }
 // the method table of the root class Object (core.yl / class_store: `derives`, `iter` …)
@@ -117,7 +123,7 @@ pub uninterp spec fn object_methods() -> Map<int, Value>;
 pub open spec fn derives_object(c: Gc<ObjClass>) -> bool { object_methods().dom().subset_of(c.obj().methods.view.dom()) }
 impl ClassStore {
     #[verifier::external_body]
-    fn is_native_class(&self, class: Gc<ObjClass>) -> (r: bool) ensures r == native_class(class) { unimplemented!() }
+    fn is_native_class(&self, class: Gc<ObjClass>) -> (r: bool) ensures r == store_native(class) { unimplemented!() }
     #[verifier::external_body]
     fn object_class(&self) -> (r: Gc<ObjClass>) ensures r.obj().methods.view == object_methods() { unimplemented!() }
     #[verifier::external_body]
@@ -157,9 +163,13 @@ pub struct Vm {
     pub ghost stack_at_call: Seq<Value>,   // the value stack as the callee of the last call found it
     pub ghost next_name: int,
     pub ghost next_byte: u8,
+    pub ghost the_string_class: Gc<ObjClass>,   // the cell `Vm.string_class` roots
 }
 
 impl Vm {
+    // `self.string_class.as_ref().expect(..).as_gc()`: the String class (set once by init_heap_allocated_data)
+    #[verifier::external_body]
+    fn string_class_gc(&self) -> (r: Gc<ObjClass>) ensures r == self.the_string_class { unimplemented!() }
     pub open spec fn same_heap(&self, o: &Vm) -> bool { self.insts == o.insts && self.mods == o.mods && self.working_class_def == o.working_class_def }
     pub open spec fn quiet(&self, o: &Vm) -> bool { self.same_heap(o) && self.stack == o.stack && self.raised == o.raised && self.called == o.called && self.next_name == o.next_name && self.next_byte == o.next_byte }
     pub open spec fn top(&self, depth: int) -> Value { self.stack[self.stack.len() - 1 - depth] }
@@ -336,11 +346,13 @@ impl Vm {
     // class is defined), methods defined afterwards override what was copied.
     //@fn file=yarel/src/vm.rs path=Vm::inherit_impl ret=r
     //@  rewrite R1
+    //@  subst "self.string_class.as_ref().expect(\"Expected Root.\").as_gc()" => "self.string_class_gc()"
+    //@  subst "superclass == string_class" => "gc_eq(superclass, string_class)"
     //@  subst "for (name, method) in &superclass.methods { self.working_class_def .as_mut() .unwrap() .class .methods .insert(*name, *method); }" => "self.working_class_def.as_mut().unwrap().class.methods.insert_all_from(&superclass.methods);"
     //@  requires old(self).stack.len() >= 2, old(self).working_class_def is Some
     //@  requires old(self).stack[old(self).stack.len() - 2] is ObjClass ==> old(self).working_class_def->0.class.methods.view.dom().subset_of(old(self).stack[old(self).stack.len() - 2]->ObjClass_0.obj().methods.view.dom())   // Inherit directly follows DeclareClass (unit classc): the table is still Object's, and every class derives Object
-    //@  ensures @native_class_cannot_be_derived_from (old(self).stack[old(self).stack.len() - 2] is ObjClass && native_class(old(self).stack[old(self).stack.len() - 2]->ObjClass_0)) ==> final(self).raised == Some(ErrorKind::TypeError) && final(self).working_class_def == old(self).working_class_def
-    //@  ensures @inherited_methods_are_those_of_the_declared_superclass (old(self).stack[old(self).stack.len() - 2] is ObjClass && !native_class(old(self).stack[old(self).stack.len() - 2]->ObjClass_0)) ==> ({ let sup = old(self).stack[old(self).stack.len() - 2]->ObjClass_0; let t0 = old(self).working_class_def->0.class.methods.view; let t1 = final(self).working_class_def->0.class.methods.view; r is Ok && final(self).working_class_def is Some && final(self).working_class_def->0.class.superclass == Some(sup) && t1 =~= sup.obj().methods.view && final(self).stack == old(self).stack.drop_last() })
+    //@  ensures @native_class_cannot_be_derived_from (old(self).stack[old(self).stack.len() - 2] is ObjClass && native_class(old(self), old(self).stack[old(self).stack.len() - 2]->ObjClass_0)) ==> final(self).raised == Some(ErrorKind::TypeError) && final(self).working_class_def == old(self).working_class_def
+    //@  ensures @inherited_methods_are_those_of_the_declared_superclass (old(self).stack[old(self).stack.len() - 2] is ObjClass && !native_class(old(self), old(self).stack[old(self).stack.len() - 2]->ObjClass_0)) ==> ({ let sup = old(self).stack[old(self).stack.len() - 2]->ObjClass_0; let t0 = old(self).working_class_def->0.class.methods.view; let t1 = final(self).working_class_def->0.class.methods.view; r is Ok && final(self).working_class_def is Some && final(self).working_class_def->0.class.superclass == Some(sup) && t1 =~= sup.obj().methods.view && final(self).stack == old(self).stack.drop_last() })
     //@  ensures @superclass_must_be_a_class !(old(self).stack[old(self).stack.len() - 2] is ObjClass) ==> final(self).raised == Some(ErrorKind::RuntimeError) && final(self).working_class_def == old(self).working_class_def
     //@end
     //@fn file=yarel/src/vm.rs path=Vm::define_method ret=r
